@@ -295,6 +295,8 @@ func c14World(t *testing.T, r *simcore.Run) any {
 			}
 		}
 		// CSPTP message and TLVs
+		var rqReused csptp.RequestTLV
+		var rsReused csptp.ResponseTLV
 		for k := 0; k < 32 && r.Violation() == nil; k++ {
 			var raw [csptp.MinMessageLength]byte
 			rand.Read(raw[:])
@@ -319,7 +321,10 @@ func c14World(t *testing.T, r *simcore.Run) any {
 				fail("csptp/message-stable", "CSPTP message not stable under re-encoding")
 				return
 			}
-			for _, withDS := range []bool{false, true} {
+			// (the order varies, and besides a fresh destination every value is also decoded into a
+			// destination struct that is reused from one message to the next, as receive loops do)
+			order := [][]bool{{false, true}, {true, false}}[tp.Intn(2, "dsorder")]
+			for _, withDS := range order {
 				var rq csptp.RequestTLV
 				rq.Type, rq.OrganizationID, rq.OrganizationSubType = uint16(idx*32+k), [3]uint8{byte(k), 2, 3}, [3]uint8{4, byte(idx), 6}
 				rq.FlagField = uint32(tp.Intn(1<<16, "tlvflag")) &^ csptp.TLVFlagServerStateDS
@@ -332,6 +337,10 @@ func c14World(t *testing.T, r *simcore.Run) any {
 				var rq2 csptp.RequestTLV
 				if err := csptp.DecodeRequestTLV(&rq2, buf); err != nil || rq2 != rq || len(buf) != map[bool]int{false: 36, true: 54}[withDS] {
 					fail("csptp/request-tlv", "request TLV round trip (server state %v): %v %+v vs %+v len %d", withDS, err, rq2, rq, len(buf))
+					return
+				}
+				if err := csptp.DecodeRequestTLV(&rqReused, buf); err != nil || rqReused != rq {
+					fail("csptp/request-tlv-reused-destination", "request TLV decoded into a struct that held the previous message: %v %+v vs %+v", err, rqReused, rq)
 					return
 				}
 				var rs csptp.ResponseTLV
@@ -355,6 +364,11 @@ func c14World(t *testing.T, r *simcore.Run) any {
 					fail("csptp/response-tlv", "response TLV round trip (server state %v): %v\n%+v\n%+v", withDS, err, rs2, rs)
 					return
 				}
+				if err := csptp.DecodeResponseTLV(&rsReused, buf); err != nil || rsReused != rs {
+					fail("csptp/response-tlv-reused-destination", "response TLV decoded into a struct that held the previous message: %v\n%+v\n%+v", err, rsReused, rs)
+					return
+				}
+				r.Probe("reused-destination-decoded")
 			}
 		}
 		// server cookies: plain and sealed, with key lengths that differ
@@ -391,6 +405,7 @@ func c14World(t *testing.T, r *simcore.Run) any {
 			}
 		}
 		// NTS extension fields through the project's encoder and decoder
+		dirty := make([]byte, 4096)
 		for k := 0; k < 8 && r.Violation() == nil; k++ {
 			ncook := 1 + tp.Intn(8, "ncook")
 			// (cookies of foreign servers need not be a multiple of four bytes long: the encoder pads)
@@ -409,7 +424,18 @@ func c14World(t *testing.T, r *simcore.Run) any {
 				continue // does not fit the encoder's buffer (cookies longer than this project's, all eight fields)
 			}
 			req, uid := nts.NewRequestPacket(data)
+			// (every other packet is encoded into a buffer that is reused and still holds an older,
+			// longer packet - as the clients' and listeners' buffers do)
 			buf := make([]byte, 48)
+			if k%2 == 1 {
+				for i := range dirty {
+					dirty[i] = 0xA5
+				}
+				buf = dirty[:48]
+				for i := range buf {
+					buf[i] = 0
+				}
+			}
 			nts.EncodePacket(&buf, &req)
 			var dec nts.Packet
 			if err := nts.DecodePacket(&dec, buf); err != nil {
@@ -429,6 +455,14 @@ func c14World(t *testing.T, r *simcore.Run) any {
 						return
 					}
 					kinds = append(kinds, f.typ)
+					if f.typ == 0x0204 && len(f.body) == padded {
+						for _, x := range f.body[len(ck):] {
+							if x != 0 {
+								fail("nts/padding", "request with a %d-byte cookie: the cookie field's padding is %x, not zeros", len(ck), f.body[len(ck):])
+								return
+							}
+						}
+					}
 				}
 				want := []uint16{0x0104, 0x0204}
 				for i := 0; i < 8-ncook; i++ {
